@@ -984,6 +984,12 @@ def degree_elevation(degree, ctrlpts, **kwargs):
 
     # Initialize variables
     num_pts_elev = degree + 1 + num
+
+    # A control polygon of rows of points is elevated position by position along the rows
+    if isinstance(ctrlpts[0][0], (list, tuple)):
+        cols = [degree_elevation(degree, [row[c] for row in ctrlpts], **kwargs) for c in range(len(ctrlpts[0]))]
+        return [[col[i] for col in cols] for i in range(num_pts_elev)]
+
     pts_elev = [[0.0 for _ in range(len(ctrlpts[0]))] for _ in range(num_pts_elev)]
 
     # Compute control points of degree-elevated 1-dimensional shape
@@ -1023,6 +1029,11 @@ def degree_reduction(degree, ctrlpts, **kwargs):
             raise GeomdlException("Degree reduction can only work with Bezier-type geometries")
         if degree < 2:
             raise GeomdlException("Input spline geometry must have degree > 1")
+
+    # A control polygon of rows of points is reduced position by position along the rows
+    if isinstance(ctrlpts[0][0], (list, tuple)):
+        cols = [degree_reduction(degree, [row[c] for row in ctrlpts], **kwargs) for c in range(len(ctrlpts[0]))]
+        return [[col[i] for col in cols] for i in range(degree)]
 
     # Initialize variables
     pts_red = [[0.0 for _ in range(len(ctrlpts[0]))] for _ in range(degree)]
